@@ -795,10 +795,11 @@ def stage_c19(o: Outcome, rec: Recording, info: dict) -> None:
     info["in_fragment"] = len(inside)
     info["outside_fragment_drift_only"] = {"count": len(outside), "reasons": reasons}
     known = sorted(o.known)
-    njobs = 6
+    # (every job starts a JVM: on a loaded machine one job per class is the fastest for a few hundred documents)
+    njobs = 4 if o.tier == "thorough" else 1
 
     def cut(items, tag):
-        n = max(1, min(njobs, len(items) // 40 + 1))
+        n = max(1, min(njobs, len(items) // 80 + 1))
         return [(tag, ("texts", items[k::n], known)) for k in range(n)] if items else []
 
     jobs = cut(inside, "in") + cut(outside, "out")
